@@ -75,11 +75,14 @@ class Obj(object):
 
 
 class Opt(object):
-    """Optional number: None | Real."""
+    """Optional scalar: None | number (kind 'num') | string (kind 'str')."""
 
-    def __init__(self, isnone, val):
+    def __init__(self, isnone, val, kind=None):
         self.isnone = isnone
         self.val = val
+        if kind is None:
+            kind = "str" if (ops.is_sym(val) and z3.is_string(val)) or isinstance(val, str) else "num"
+        self.kind = kind
 
     def __repr__(self):
         return "Opt(%s,%s)" % (self.isnone, self.val)
